@@ -29,7 +29,10 @@ def load():
     return ENV_MOD, Q_MOD
 
 
-OUTCOMES = ('ok', 'fail', 'raise', 'none', 'notpair', 'badstatus', 'badupdate', 'nonfinal')
+OUTCOMES = ('ok', 'fail', 'raise', 'none', 'notpair', 'badstatus', 'badupdate', 'nonfinal', 'reshape')
+# 'reshape': a normal DONE result whose nested values have another shape than those of an entry carried in by the initial
+# environment (a mapping where there was a list, a number where there was a mapping); for Sched.tla it is 'ok'
+MODEL_OUTCOME = {'reshape': 'ok'}
 
 
 class RunState:
@@ -81,6 +84,11 @@ def make_probe_class():
             out = rs.cfg['outcome'].get(str(self.idx), 'ok')
             upd = self.payload()
             if out == 'ok':
+                rs.updates[self.idx] = upd
+                return upd, _TaskStatus.DONE
+            if out == 'reshape':
+                v = rs.execs[self.idx]
+                upd = {self.name: {'payload': [self.idx, v], 'nested': {'a': {'deep': [self.idx, v]}, 'b': v}}}
                 rs.updates[self.idx] = upd
                 return upd, _TaskStatus.DONE
             if out == 'fail':
@@ -266,7 +274,8 @@ def _pay_version(entry, i):
         if p is None or nst is None:
             return 3
         v = p[1]
-        if p[0] != i or nst.get('a') != [i, v] or nst.get('b') != {'c': v}:
+        reshaped = nst.get('a') == {'deep': [i, v]} and nst.get('b') == v
+        if p[0] != i or not (reshaped or (nst.get('a') == [i, v] and nst.get('b') == {'c': v})):
             return 3
         return 1 if v == 0 else 2
     except Exception:  # pylint: disable=broad-except
@@ -429,7 +438,8 @@ def record(cfg, strategy, max_steps=None, hook=None):
     events = rec.events if rec else []
     order = [t.idx for t in ex.order] if ex.order else list(range(1, cfg['n'] + 1))
     trace = dict(cfg=dict(n=cfg['n'], workers=cfg['workers'], edges=[list(e) for e in cfg['edges']],
-                          outcome=[cfg['outcome'].get(str(i), 'ok') for i in range(1, cfg['n'] + 1)],
+                          outcome=[MODEL_OUTCOME.get(cfg['outcome'].get(str(i), 'ok'), cfg['outcome'].get(str(i), 'ok'))
+                                   for i in range(1, cfg['n'] + 1)],
                           init=[(cfg.get('init') or {}).get(str(i), 'ABSENT') for i in range(1, cfg['n'] + 1)],
                           order=order, calls=cfg.get('calls', 1), nested=cfg.get('nested') or {}, prior=cfg.get('prior') or {}),
                  events=events, verdict=ex.ctl.verdict, raised=repr(ex.raised) if ex.raised is not None else '',
